@@ -73,6 +73,14 @@ namespace bloch::runtime {
             v.className = declared.className;
     }
 
+    // A value read from a field is seen through the field's declared class, like one read from a
+    // typed variable.
+    static Value readField(const Value& stored, const RuntimeField& field) {
+        Value v = stored;
+        applyStaticClass(v, field.type);
+        return v;
+    }
+
     // A reference slot keeps its declared class whatever is stored into it: a null reference and
     // the empty value left behind by 'destroy' carry it too, so that an object assigned later is
     // still seen through the declared class when overloads are resolved.
@@ -658,13 +666,13 @@ namespace bloch::runtime {
             if (!m_inStaticContext && thisObj) {
                 RuntimeField* field = findInstanceField(m_currentClassCtx, name);
                 if (field && field->offset < thisObj->fields.size())
-                    return thisObj->fields[field->offset];
+                    return readField(thisObj->fields[field->offset], *field);
             }
             auto [field, owner] = findStaticFieldWithOwner(m_currentClassCtx, name);
             if (field && owner && field->offset < owner->staticStorage.size()) {
                 if (!owner->staticsInitialised)
                     initStaticFields(owner);
-                return owner->staticStorage[field->offset];
+                return readField(owner->staticStorage[field->offset], *field);
             }
         }
         auto clsIt = m_classTable.find(name);
@@ -2599,7 +2607,7 @@ namespace bloch::runtime {
                         // that class has been initialised: classes are initialised in table order.
                         if (!owner->staticsInitialised)
                             initStaticFields(owner);
-                        return owner->staticStorage[idx];
+                        return readField(owner->staticStorage[idx], *field);
                     }
                 } else if (method) {
                     Value v;
@@ -2617,7 +2625,7 @@ namespace bloch::runtime {
                                          : nullptr;
                 if (instField) {
                     if (instField->offset < obj.objectValue->fields.size())
-                        return obj.objectValue->fields[instField->offset];
+                        return readField(obj.objectValue->fields[instField->offset], *instField);
                 } else {
                     auto [staticField, owner] =
                         obj.objectValue->cls
@@ -2626,7 +2634,7 @@ namespace bloch::runtime {
                     if (staticField && owner && staticField->offset < owner->staticStorage.size()) {
                         if (!owner->staticsInitialised)
                             initStaticFields(owner);
-                        return owner->staticStorage[staticField->offset];
+                        return readField(owner->staticStorage[staticField->offset], *staticField);
                     }
                 }
             }
